@@ -524,12 +524,18 @@ func encOf(t storepb.Chunk_Encoding) int {
 	return -1
 }
 
-func (g *gateway) series(ctx context.Context, req *storepb.SeriesRequest) (*result, error) {
+func (g *gateway) series(ctx context.Context, req *storepb.SeriesRequest) (res *result, err error) {
+	// a panic of the code under test (on the calling goroutine) is an answer that differs from the TSDB read
+	defer func() {
+		if p := recover(); p != nil {
+			res, err = nil, fmt.Errorf("panic in BucketStore.Series: %v", p)
+		}
+	}()
 	srv := &seriesServer{ctx: ctx}
 	if err := g.st.Series(req, srv); err != nil {
 		return nil, err
 	}
-	res := &result{ans: answer{}, warnings: srv.warnings}
+	res = &result{ans: answer{}, warnings: srv.warnings}
 	var prev labels.Labels
 	for i, s := range srv.series {
 		l := labelpb.ZLabelsToPromLabels(s.Labels)
